@@ -11,18 +11,20 @@
 (*              one duplicate) gives RefRoot(S)                              *)
 (*   Complete   Validate(Ser(GenProof(S,x)), x, RefRoot(S)) = (x \in S),     *)
 (*              Deser(Ser(p)) = p                                            *)
-(*   SoundExh   all proof terms of height <= ExhH over E | T(any key) |      *)
+(*   Sound, over three families of proof terms:                              *)
+(*   (Exh)      all proof terms of height <= ExhH over E | T(any key) |      *)
 (*              R(honest node hash or junk)                                  *)
-(*   SoundGuided all terms of height <= GuidedH whose every middle node has  *)
+(*   (Guided)   all terms of height <= GuidedH whose every middle node has  *)
 (*              the hash of an honest node (root-plausible terms; prunes only*)
 (*              terms that would need a SHA-256 collision to match the root) *)
-(*   SoundRw    all single rewrites (and selected double rewrites) of every  *)
+(*   (Rw)       all single rewrites (and selected double rewrites) of every  *)
 (*              honest proof, and honest proofs of neighbouring sets         *)
 (*   each: Classify(p, x, RefRoot(S)) accepting => verdict = (x \in S)       *)
-(* Emit prints one replay case per state.                                    *)
+(* for sets of at most SoundMax keys; one replay case per state is printed    *)
+(* (EmitCases).                                                              *)
 EXTENDS MerkleSet, TLC, Json
 
-CONSTANTS D, EmbKind, MinSet, MaxSet, ExhH, GuidedH, PermMax
+CONSTANTS D, EmbKind, MinSet, MaxSet, SoundMax, ExhH, GuidedH, PermMax, DupMax, EmitCases
 
 N == Pow2(D)
 Pos(i) == CASE EmbKind = "top" -> i [] EmbKind = "stride" -> 8 * i + 3 [] EmbKind = "low" -> 256 - D + i
@@ -33,8 +35,8 @@ KeyOfBits(f) == [b \in 1..32 |-> LET o == 8 * (b - 1) IN
    128 * f[o] + 64 * f[o + 1] + 32 * f[o + 2] + 16 * f[o + 3] + 8 * f[o + 4] + 4 * f[o + 5] + 2 * f[o + 6] + f[o + 7]]
 EmbBits(m) == [j \in 0..255 |-> IF \E i \in 0..(D - 1) : Pos(i) = j
                                  THEN ModelBit(m, CHOOSE i \in 0..(D - 1) : Pos(i) = j) ELSE BgBit(j)]
-Emb(m) == KeyOfBits(EmbBits(m))
-Flip(k, j) == KeyOfBits([t \in 0..255 |-> IF t = j THEN 1 - Bit(k, t) ELSE Bit(k, t)])
+Emb(m) == TLCEval(KeyOfBits(EmbBits(m)))
+Flip(k, j) == TLCEval(KeyOfBits([t \in 0..255 |-> IF t = j THEN 1 - Bit(k, t) ELSE Bit(k, t)]))
 
 U == {Emb(m) : m \in 0..(N - 1)}
 \* two query items outside the universe: one parting from Emb(0) in the middle
@@ -50,12 +52,14 @@ Next == phase = 0 /\ phase' = 1 /\ UNCHANGED S
 
 Root == RefRoot(S)
 Sound1(p, x) == LET c == ClassifyTree(p, x, Root) IN Accepting(c) => c = YesNo(x \in S)
-SoundAll(P) == \A p \in P : \A x \in Items : Sound1(p, x)
+SoundTerm(p) == Structural(p, Root) = "" => \A x \in Items : Lookup(p, x, 0) \in {"err", YesNo(x \in S)}
+SoundAll(P) == \A p \in P : SoundTerm(p)
 
 (* ---------------- Canonical ---------------- *)
 SeqsOver(X, n) == {s \in [1..n -> X] : Range(s) = X}
 Canonical == phase = 1 =>
-  /\ Cardinality(S) <= PermMax => \A s \in SeqsOver(S, Cardinality(S)) \cup SeqsOver(S, Cardinality(S) + 1) : SeqRoot(s) = Root
+  /\ Cardinality(S) <= PermMax => \A s \in SeqsOver(S, Cardinality(S)) : SeqRoot(s) = Root
+  /\ Cardinality(S) <= DupMax => \A s \in SeqsOver(S, Cardinality(S) + 1) : SeqRoot(s) = Root
   /\ LET RECURSIVE AsSeq(_)
          AsSeq(X) == IF X = {} THEN <<>> ELSE LET k == CHOOSE k \in X : TRUE IN <<k>> \o AsSeq(X \ {k})
          s == AsSeq(S)
@@ -80,15 +84,16 @@ LeafTerms == {PE} \cup {PT(k) : k \in U} \cup {PR(h) : h \in Honest \cup {Junk}}
 (* ---------------- SoundExh ---------------- *)
 RECURSIVE Terms(_)
 Terms(h) == IF h = 0 THEN LeafTerms ELSE LET g == Terms(h - 1) IN LeafTerms \cup {PM(pr[1], pr[2]) : pr \in g \X g}
-SoundExh == (phase = 1 /\ ExhH > 0) => SoundAll(Terms(ExhH))
+ExhSet == IF ExhH = 0 THEN {} ELSE Terms(ExhH)
 
 (* ---------------- SoundGuided ---------------- *)
+\* terms paired with their node <<hash, type>> so that nothing is hashed twice
 RECURSIVE Guided(_)
-Guided(h) == IF h = 0 THEN LeafTerms
+Guided(h) == LET lt == {[p |-> q, n |-> PNode(q)] : q \in LeafTerms} IN
+             IF h = 0 THEN lt
              ELSE LET g == Guided(h - 1) IN
-                  LeafTerms \cup {PM(pr[1], pr[2]) : pr \in {q \in g \X g : PNode(PM(q[1], q[2]))[1] \in Honest}}
-GuidedSet == IF GuidedH = 0 THEN {} ELSE Guided(GuidedH)
-SoundGuided == phase = 1 => SoundAll(GuidedSet)
+                  lt \cup {c \in {[p |-> PM(pr[1].p, pr[2].p), n |-> Join(pr[1].n, pr[2].n)] : pr \in g \X g} : c.n[1] \in Honest}
+GuidedSet == IF GuidedH = 0 THEN {} ELSE {c.p : c \in Guided(GuidedH)}
 
 (* ---------------- rewrites of honest proofs ---------------- *)
 RECURSIVE Height(_)
@@ -102,7 +107,7 @@ ReplAt(p, path, i, q) == IF i > Len(path) THEN q
                          ELSE IF path[i] = 0 THEN PM(ReplAt(p.l, path, i + 1, q), p.r) ELSE PM(p.l, ReplAt(p.r, path, i + 1, q))
 \* rewrite positions: every node of a shallow proof; for deep proofs the top,
 \* the middle and the bottom levels
-DepthSel(h) == IF h <= 12 THEN 0..h ELSE (0..2) \cup {128} \cup ((h - 4)..h)
+DepthSel(h) == IF h <= 24 THEN 0..h ELSE (0..1) \cup {128} \cup ((h - 2)..h)
 Nbrs(k) == {k2 \in U : Cardinality({j \in 0..(D - 1) : Bit(k, Pos(j)) # Bit(k2, Pos(j))}) = 1} \cup {Out1, Out2}
 Variants(n, x) ==
   {PE, PR(Junk), PM(n, PE), PM(PE, n)}
@@ -122,18 +127,24 @@ Rewrites(p, x) ==
 NbrSets == {S \ {k} : k \in S} \cup {S \cup {k} : k \in {k2 \in Items \ S : \E k3 \in S \cup {Out1} : k2 \in Nbrs(k3)}}
 RwSet == UNION {Rewrites(GenProof(S, x), x) : x \in Items}
          \cup {GenProof(X, x) : X \in NbrSets, x \in Items}
-SoundRw == phase = 1 => SoundAll(RwSet)
 
-(* ---------------- replay cases ---------------- *)
+(* ---------------- Sound + replay cases ---------------- *)
 \* Adversarial terms sent to the implementation: all rewrites and guided terms
 \* (they include terms that this specification rejects for each reason).
 RECURSIVE SetToSeq(_)
 SetToSeq(X) == IF X = {} THEN <<>> ELSE LET k == CHOOSE k \in X : TRUE IN <<k>> \o SetToSeq(X \ {k})
-Adv == (RwSet \cup GuidedSet) \ {GenProof(S, x) : x \in Items}
-Case == LET s == SetToSeq(S) IN
+Case(adv) == LET s == SetToSeq(S) IN
   [emb |-> EmbKind, d |-> D,
    leafs |-> IF s = <<>> THEN s ELSE s \o <<s[1]>>,
    items |-> SetToSeq(Items),
-   adv |-> SetToSeq({Ser(p) : p \in Adv})]
-Emit == phase = 1 => PrintT(<<"CASE", ToJson(Case)>>)
+   adv |-> SetToSeq({Ser(p) : p \in adv \ {GenProof(S, x) : x \in Items}})]
+\* sets larger than SoundMax are checked for Canonical and Complete only (and replayed without adversarial terms)
+Sound == phase = 1 =>
+  LET small == Cardinality(S) <= SoundMax
+      rw == IF small THEN RwSet ELSE {}
+      g == IF small THEN GuidedSet ELSE {}
+  IN /\ SoundAll(rw)
+     /\ SoundAll(g)
+     /\ small => SoundAll(ExhSet)
+     /\ EmitCases => PrintT(<<"CASE", ToJson(Case(rw \cup g))>>)
 =============================================================================
